@@ -61,6 +61,21 @@ pub fn init_json(interp: &mut Interpreter) {
     interp.register_method(&json, "rawJSON", json_raw_json, 1);
     interp.register_method(&json, "isRawJSON", json_is_raw_json, 1);
 
+    // JSON[Symbol.toStringTag]
+    let tag_key = PropertyKey::Symbol(Box::new(crate::value::JsSymbol::new(
+        interp.well_known_symbols.to_string_tag,
+        Some(interp.intern("Symbol.toStringTag")),
+    )));
+    json.borrow_mut().define_property(
+        tag_key,
+        crate::value::Property::with_attributes(
+            JsValue::String(JsString::from("JSON")),
+            false,
+            false,
+            true,
+        ),
+    );
+
     let json_key = PropertyKey::String(interp.intern("JSON"));
     interp
         .global
@@ -276,7 +291,8 @@ fn js_value_to_json_with_visited(
                             let props: Vec<_> = obj_ref
                                 .properties
                                 .iter()
-                                .filter(|(_, prop)| prop.enumerable())
+                                // symbol-keyed properties are never serialised
+                                .filter(|(k, prop)| prop.enumerable() && !k.is_symbol())
                                 .map(|(k, p)| (k.to_string(), p.value.clone()))
                                 .collect();
                             drop(obj_ref); // Release borrow before recursive calls
